@@ -48,8 +48,8 @@ var specs = map[string]*propSpec{
 		"idealised signatures: a signature verifies iff the simulated SP produced it over the same octets, algorithm and key; HarnessSSOSig / HarnessSSOPlacementSig: the SP signs nothing, so every signature value is a forgery; HarnessSSOSigned: the SP signed exactly one Redirect-binding request (Go-style percent-encoding), the attacker delivers arbitrary parameter values",
 		"KeyDescriptor <= 1 / <= 2, X509Data <= 1 / <= 2"),
 	"C06": mk("C06", []string{"HarnessSSODecode", "HarnessSSOContent"}, []string{"HarnessSSOACSContent"}, ssoCovers),
-	"C07": mk("C07", []string{"HarnessLogoutConformant", "HarnessAttrQueryConformant", "HarnessSSOConformant"}, nil,
-		[]string{"C07.logout-redirect-binding", "C07.logout-post-binding", "C07.attrquery-with-destination", "C07.sso-redirect-binding", "C07.sso-post-binding", "C07.sso-redirect-binding-signed"},
+	"C07": mk("C07", []string{"HarnessLogoutConformant", "HarnessAttrQueryConformant", "HarnessSSOConformant", "HarnessSSOSignedEncodingStyles"}, nil,
+		[]string{"C07.logout-redirect-binding", "C07.logout-post-binding", "C07.attrquery-with-destination", "C07.sso-redirect-binding", "C07.sso-post-binding", "C07.sso-redirect-binding-signed", "C07.sso-redirect-binding-signed-other-escape-style"},
 		"conformant = schema-valid at struct level (Level S), unsigned where nothing requires signing, or (AuthnRequest, Redirect binding) signed by the registered RSA key over Go-style percent-encoded octets; byte-level serialisation variety, other percent-encoding styles and enveloped signatures are outside this check"),
 	"C08": mk("C08", ssoAll, []string{"HarnessSSOACSContent"}, ssoCovers),
 	"C09": mk("C09", append(append([]string{}, ssoAll...), "HarnessCallback", "HarnessLogout", "HarnessAttrQuery", "HarnessMetadata", "HarnessRegistration"), nil, nil,
